@@ -595,6 +595,7 @@ func (ex *Exec) box(st *State, x *Val, from types.Type) *Val {
 		}
 		return tv(x.T, from)
 	}
+	ex.w.boxTags[mangle(s.String())] = ex.w.typeTag(from)
 	r := mk("box_"+mangle(s.String()), SRef, x.T)
 	ex.assume(st, tAnd(tEq(dynType(r), ex.w.typeTag(from)), tNot(tEq(r, intLit(0))), tEq(mk("unbox_"+mangle(s.String()), s, r), x.T)))
 	return tv(r, from)
